@@ -78,6 +78,9 @@ func runC08Conc(t *testing.T, p *Plan) *Outcome {
 		s.install()
 		defer s.uninstall()
 		dice := p.NewDice()
+		// the heap mutexes of the LFU/LRU caches are scheduling points too: a step that decides under the store
+		// lock and updates a heap later can be overtaken in between
+		s.ParkLocks = map[string]bool{"cache.lfu": true, "cache.lru": true}
 		probe, err := s.Boot(99, BaseConfig)
 		if err != nil {
 			fail("boot-failed", fmt.Sprint(err))
